@@ -35,6 +35,7 @@ class Laws:
     def __init__(self, pid, rule=''):
         self.pid = pid; self.cases = 0; self.viol = {}; self.samples = []; self.stats = {}
         self.seen = set(); self.rule = rule; self.maxres = {}
+        Laws.current = self
 
     def count(self, law, key=None):
         self.cases += 1
@@ -149,5 +150,20 @@ def main_entry(impl, corr=None):
         tier, seed, search = sys.argv[2], int(sys.argv[3]), sys.argv[4] == '1'
         warnings.filterwarnings('ignore')
         sys.path.insert(0, REPO)
-        res = impl(tier, seed, search)
+        try:
+            res = impl(tier, seed, search)
+        except Exception as e:
+            # an exception escaping from the library where the monitor expects none (every call that may legitimately raise is
+            # wrapped): report it as a witness, with the innermost library frame, and keep what was collected so far
+            L = getattr(Laws, 'current', None)
+            if L is None: raise
+            tb = traceback.extract_tb(e.__traceback__)
+            lib = [f for f in tb if '/spatialmath/' in f.filename]
+            where = f"{os.path.basename(lib[-1].filename)}:{lib[-1].name}" if lib else 'monitor'
+            caller = [f for f in tb if '/smv/props/' in f.filename]
+            L.count('unexpected-exception')
+            L.fail(f"unexpected-exception:{type(e).__name__}:{where}",
+                   f"the library raised {type(e).__name__} ({str(e)[:120]}) in {where} on an input where the property requires a result",
+                   dict(traceback=traceback.format_exc()[-1500:], monitor_line=(caller[-1].lineno if caller else None)), observed=type(e).__name__)
+            res = L.result()
         emit(res)
